@@ -37,6 +37,8 @@ for f in new:
         f = {"id": f["id"], "property": f["property"], "status": "fixed", "commit": _fx(f["id"]), "what": f["what"]}
     if f.get("status") == "fixed" and "match" in f:
         f.pop("match")
+    if by_id.get(f["id"], {}).get("status") == "fixed" and f.get("status") != "fixed":
+        continue  # already recorded as repaired: a re-merge of the builder's file must not re-open it
     by_id[f["id"]] = f
 for k, c in fixed.items():
     if not any(fnmatch.fnmatchcase(i, k) for i in by_id):
